@@ -7,6 +7,7 @@
 From Coq Require Import ZArith List Bool String Permutation Sorted.
 Import ListNotations.
 Require Import SV.C14.Strs SV.C14.Gen_defaults SV.C14.Config SV.C14.Dump SV.C14.Defaults SV.C14.Proofs.
+Require Import SV.C09.Gen_EvTypes SV.C09.EvTypes SV.C14.Subscribe.
 Open Scope string_scope.
 Open Scope Z_scope.
 
@@ -139,6 +140,21 @@ Theorem c14_unknown_event_rejected :
   forall g, listener_pool expand c penv h (sect, opts) <> Ok g.
 Proof. exact unknown_event_rejected. Qed.
 Print Assumptions c14_unknown_event_rejected.
+
+(* from the listed types to what the pool made from the section receives: one
+   notification of class t is handed to the pool exactly once iff t or one of its
+   superclasses is listed (duplicates, orders, type/supertype pairs do not matter);
+   hierarchy = C09's generated one *)
+Theorem c14_subscription_routing :
+  forall subs t, deliveries subs t = if existsb (fun T => subtype_b t T) subs then 1%Z else 0%Z.
+Proof. exact subscription_routing. Qed.
+Print Assumptions c14_subscription_routing.
+
+Theorem c14_event_names_are_classes :
+  forallb (fun n => match class_of_name n with Some _ => true | None => false end) event_type_names = true /\
+  List.length event_type_names = List.length event_types_table.
+Proof. exact event_names_are_classes. Qed.
+Print Assumptions c14_event_names_are_classes.
 
 (* the result is the (priority, name)-sorted permutation of the groups made;
    likewise the processes of one section *)
